@@ -87,8 +87,8 @@ private def pDoc : P DocA := do
   let people ← pList pPerson
   let fams ← pList (do let h ← pOpt; let w ← pOpt; let d ← pHex; pure (⟨h, w, d⟩ : FamA))
   let others ← pList pPlEv
-  let ns ← pNat
-  pure ⟨people, fams, others, ns⟩
+  let ptrs ← pList pHex
+  pure ⟨people, fams, others, ptrs⟩
 
 private def showAtom : Atom → String
   | .T s => "T" ++ toHex s
@@ -110,9 +110,12 @@ def handlePages (cmd : String) (rest : List String) : Option String :=
         -- drift check against the naming model of C19 (Gedcom.Model.PublishNames): the page keys and
         -- place keys this document carries are the ones getUniqueKey / sanitize assign
         let pls := if opts.pla then places generatedFlags d vis else []
-        let keys := Publish.individualKeys (d.people.map (fun p => p.pp.title)) (pls.map (·.key))
-        let keysOk := vis != .show || keys.map (· ++ Publish.html) == d.people.map (fun p => p.priv.page)
-        let placesOk := pls.all (fun p => Publish.sanitize p.pretty == p.key)
+        -- the page names the real API reports (show mode) are the ones the shared naming model assigns,
+        -- and the place keys read from the real site are the ones it computes
+        let keys := pageKeys generatedFlags d vis opts
+        let keysOk := vis != .show ||
+          keys.map (fun k => (k.map (· ++ Publish.html)).getD [35]) == d.people.map (fun p => p.priv.page)
+        let placesOk := (placeEvents generatedFlags d vis).all (fun e => placeKeyOf d e.2 == e.2.key)
         some (" ".intercalate (files.map fun f => toHex f.1 ++ "=" ++ ",".intercalate (f.2.map showAtom)) ++
           s!" names={if keysOk then "ok" else "individual-keys-differ"},{if placesOk then "ok" else "place-keys-differ"}")
       | _, _ => some "bad-op"
